@@ -39,6 +39,9 @@ NOFIX_CFGS = {
 }
 
 
+FIX_ONLY_NOTHING = {"fix": {"rule": {}}}
+
+
 def inputs_of(desc):
     return sorted(f["path"] for f in desc["sandbox"])
 
@@ -138,13 +141,19 @@ def gen_b(seed):
         sandbox.append(workload.sb_entry(name, data, rng.choice(workload.MODES)))
         names.append(name)
         meta.append({"path": name, "from": label, "tags": tags, "size": len(data), "digest": wire.digest(data)})
-    which = rng.choice(sorted(NOFIX_CFGS))
-    sandbox.append(workload.sb_entry("cfg.json", common.json_bytes(NOFIX_CFGS[which])))
+    which = rng.choice(sorted(NOFIX_CFGS) + ["fix-only-empty", "fix-phase-0"])
     argv = ["-p", str(rng.choice([1, 1, 2, 3])), "--fix"]
     if rng.random() < 0.3:
         argv.append("--backup")
     # no --style here: a style's per-rule settings take precedence over [rule][global]
-    argv += ["-c", "cfg.json", "-f"] + names
+    if which == "fix-only-empty":
+        sandbox.append(workload.sb_entry("fixonly.json", common.json_bytes(FIX_ONLY_NOTHING)))
+        argv += ["--fix_only", "fixonly.json", "-f"] + names
+    elif which == "fix-phase-0":
+        argv += ["-fp", "0", "-f"] + names
+    else:
+        sandbox.append(workload.sb_entry("cfg.json", common.json_bytes(NOFIX_CFGS[which])))
+        argv += ["-c", "cfg.json", "-f"] + names
     return _desc(seed, rng, sandbox, argv, {"class": "b", "config": which, "files": meta, "style": None})
 
 
@@ -252,6 +261,14 @@ def member(desc, env):
     a = desc["argv"]
     if "--fix" not in a:
         return "a"
+    if "--style" not in a and "-c" not in a:
+        if "--fix_only" in a:
+            name = a[a.index("--fix_only") + 1]
+            for f in desc["sandbox"]:
+                if f["path"] == name and workload.sb_bytes(f) == common.json_bytes(FIX_ONLY_NOTHING):
+                    return "b"
+        if "-fp" in a and a[a.index("-fp") + 1] == "0":
+            return "b"
     if "-c" in a:
         if "--style" in a:
             return None
